@@ -368,3 +368,31 @@ Proof.
     + cbn [fst] in *. destruct Hbefore as [Hb|[o' Eo]]; [|discriminate].
       unfold usable in *. cbn [waf] in *. congruence.
 Qed.
+
+(* ------------------------------------------------------------------------------------------ *)
+(* DoS policies and log configurations have no getter; their own events always report them *)
+
+Theorem dos_policy_events_reported st k :
+  (forall o, let out := snd (step st (EvDosPolicy k o)) in
+             In (chg (op_for (dp_valid o)) KDosPolicy k) (o_changes out) /\
+             (dp_valid o = false -> In (prob KDosPolicy k PcValidation) (o_problems out))) /\
+  (forall o, let out := snd (step st (EvDosLogConf k o)) in
+             In (chg (op_for (dl_valid o)) KDosLogConf k) (o_changes out) /\
+             (dl_valid o = false -> In (prob KDosLogConf k PcValidation) (o_problems out))) /\
+  (stored st KDosPolicy k = true -> In (chg OpDelete KDosPolicy k) (o_changes (snd (step st (EvDelDosPolicy k))))) /\
+  (stored st KDosLogConf k = true -> In (chg OpDelete KDosLogConf k) (o_changes (snd (step st (EvDelDosLogConf k))))).
+Proof.
+  repeat split.
+  - unfold step, lift_d, dos_add_or_update_policy. destruct (reeval _ _) as [[? ?] ?]. cbn.
+    left. destruct (dp_valid o); reflexivity.
+  - intros Hv. unfold step, lift_d, dos_add_or_update_policy. destruct (reeval _ _) as [[? ?] ?]. cbn.
+    rewrite Hv. left. reflexivity.
+  - unfold step, lift_d, dos_add_or_update_logconf. destruct (reeval _ _) as [[? ?] ?]. cbn.
+    left. destruct (dl_valid o); reflexivity.
+  - intros Hv. unfold step, lift_d, dos_add_or_update_logconf. destruct (reeval _ _) as [[? ?] ?]. cbn.
+    rewrite Hv. left. reflexivity.
+  - unfold stored, mem, step, lift_d, dos_delete_policy. destruct (lookup k (dpols (dos st))); [|discriminate].
+    intros _. destruct (reeval _ _) as [[? ?] ?]. cbn. left. reflexivity.
+  - unfold stored, mem, step, lift_d, dos_delete_logconf. destruct (lookup k (dlogs (dos st))); [|discriminate].
+    intros _. destruct (reeval _ _) as [[? ?] ?]. cbn. left. reflexivity.
+Qed.
